@@ -88,7 +88,7 @@ GHOST_ARRAYS = ['sem', 'sem2', 'sem3', 'sem1', 'qex', 'qfa', 'hl', 'rt', 'ext']
 STORED = [f for f in M.ALLF if f not in GHOST_ARRAYS]
 
 
-def pins(S, model, nodes, levels):
+def pins(S, model, nodes, levels, free=()):
     """equalities fixing the ghost of state S (at the stored nodes) and the ghost parameters (at the levels in use) to the
     values of `model`"""
     out = []
@@ -97,7 +97,9 @@ def pins(S, model, nodes, levels):
         a = getattr(S, f)
         for u in nodes:
             out.append(a[u] == ev(a[u]))
-    for P in (A, A2, A3, Q):
+    for nm, P in (('A', A), ('A2', A2), ('A3', A3), ('Q', Q)):
+        if nm in free:
+            continue        # defined by the postcondition of this contract (e.g. the assignment re-indexed by the new order)
         for l in levels:
             out.append(P[l] == ev(P[l]))
     out += [HL == ev(HL), RT == ev(RT)]
@@ -193,6 +195,7 @@ def _run_case(REG, case, rnd, env):
     if r == unknown:
         return dict(status='inconclusive', where='pre', detail=s.reason_unknown())
     nvars0, node_ids = len(b.vars), sorted(b._succ, reverse=True)
+    free = getattr(M, 'REG_FREE_GHOST', {}).get(case.contract, ())
 
     def ghost_instance(rep=0):
         """one instance of the free ghost parameters (random hints, dropped when they contradict the precondition) together with
@@ -219,7 +222,7 @@ def _run_case(REG, case, rnd, env):
             mdl = s.model()
             out = []
             for Sk in states0.values():
-                out += pins(Sk, mdl, nodes, levels)
+                out += pins(Sk, mdl, nodes, levels, free)
             return out
         finally:
             for _ in range(depth):
